@@ -191,6 +191,10 @@ POSITIONS = {
         'gt2 = {e}; writeln(gt2);',
         'hb({e});',
         'bool[] t = [{e}, true, {e}]; write(t[0]); write(t[1]); write(t[2]);',
+        # packed storage: elements beyond the first byte, and a literal whose first byte holds only literal false,
+        # built twice at the same address with writes in between
+        'bool[] t = [true, false, true, false, c, false, true, false, {e}, false, {e}, true, false, false, false, false, c, {e}]; for (int k = 0; k < t.length; k += 1) {{ write(t[k] is int); }}',
+        'for (int i = 0; i < 2; i += 1) {{ bool[] t = [false, false, false, false, false, false, false, false, {e}, true]; for (int k = 0; k < t.length; k += 1) {{ write(t[k] is int); }} t[0] = true; t[5] = true; t[8] = not t[8]; }}',
         'int n = 0; while ({e} and n < 2) {{ n += 1; }} writeln(n);',
         'MB[1] = {e}; write(MB[0]); write(MB[1]); write(MB[2]);',
         "for (int i = 0; i < 2 and {e}; i += 1) {{ write('i'); }}",
@@ -451,6 +455,9 @@ int a = 1; int b = a + 1; const int c = b * 3; byte gb = 200; bool gf = false; s
 int z1[3]; bool zb[10]; byte zy[2]; string zs[2];
 empty touch(int a) { a += 100; b += a; }
 int shadow() { int a = 50; { int b = a + 1; a = b; } return a + b; }
+byte[] buf = ['.', '.', '.', '.', '.', '.']; int pos = 0; int[] ibuf = [0, 0, 0, 0];
+byte nxt() { pos += 1; return (96 + pos) is byte; }
+int inx() { pos += 1; return pos * 11; }
 int peek() { a += 1; return a * 2 + b; }
 int peek2(int b) { return a + b + c; }
 int find(const int[] h, int v) { for (int i = 0; i < h.length; i += 1) { if (h[i] != v) { continue; } return i; } return -1; }
@@ -458,6 +465,8 @@ int firstpos(const int[] h) { int i = -1; while (i < h.length - 1) { i += 1; if 
 empty @is_you(int n) {
     writeln(a); writeln(b); writeln(c); writeln(gb is int); writeln(gf); writeln(gs);
     touch(n); writeln(a); writeln(b); writeln(shadow()); writeln(peek()); writeln(peek2(n)); writeln(peek()); writeln(a);
+    buf[pos] = nxt(); buf[pos] = nxt(); buf[pos] += nxt(); buf[pos + 1] = nxt(); writeln(buf); pos = 0; ibuf[pos] = inx(); ibuf[pos] += inx(); ibuf[pos] = inx() + ibuf[pos - 1];
+    writeln(ibuf[0]); writeln(ibuf[1]); writeln(ibuf[2]); writeln(pos);
     writeln(find([4, n, 7, 9], 7)); writeln(find([n, 2], n)); writeln(find([1, 2], 5)); int ze[0]; writeln(find(ze, 1)); writeln(firstpos([0, -1, n, 5])); writeln(firstpos(ze)); writeln(firstpos([0 - n, 0]));
     z1[0] = 2; z1[1] = n; z1[2] = 5; zb[8] = false; zb[9] = true; zy[1] = 'k'; zs[0] = gs; zs[1] = "x";
     writeln(z1[0] + z1[1] + z1[2]); writeln(zb[9]); writeln(zb[8]); write(zy[1]); writeln(zs[0]); writeln(zs[1].length);
@@ -470,14 +479,15 @@ int calls = 0;
 empty all_is_win(int score) { write("score "); writeln(score); }
 empty all_is_broken(string why, bool fatal) { write(why); writeln(fatal); }
 int half_up(int v) { all_is_broken("halving ", false); all_is_win(v); return (v + 1) / 2; }
+const int[] CX = [9, 8, 7];
 empty @again(const int[] xs, byte b, int n) {
-    if (b != 'z') { @is_you(n - 1, xs, 'z'); }
+    if (b != 'z') { @is_you(n - 1, CX, 'z'); } else if (n == 0) { @is_you(0 - 1, [n, 4], 'y'); }
     write("back "); writeln(xs.length);
 }
 empty @is_you(int n, const int[] xs, byte tag) {
     calls += 1; int[] loc = [n, calls, 7];
     all_is_win(calls); writeln(half_up(n + 4)); sleep(calls * 300); debug(); progress(); sleep(n + 1);
-    write(tag); write(' '); write(n); write(' '); writeln(xs.length);
+    write(tag); write(' '); write(n); write(' '); write(xs.length); for (int k = 0; k < xs.length; k += 1) { write(':'); write(xs[k]); } writeln();
     if (n > 0) { @is_you(n - 1, xs, tag); }
     @again(xs, tag, n);
     write("done "); write(loc[0]); write(loc[1]); writeln(loc[2]);
